@@ -80,9 +80,12 @@ type popCtx struct {
 
 func (p popCtx) str() string {
 	if p.tmpl {
+		if p.r.Intn(3) == 0 { // plain text with closing braces of its own in front of the action (a JSON payload)
+			return "{\"m\":{\"l\":{\"a\":1}},\"n\":{{ .x }}"
+		}
 		return "{{ .x }}"
 	}
-	return []string{"plain", "a.b", "v-1", "text with { brace", ""}[p.r.Intn(5)]
+	return []string{"plain", "a.b", "v-1", "text with { brace", "", "false", "{\"a\":{\"b\":1}}"}[p.r.Intn(7)]
 }
 
 // a value-or-reference, in either of its two YAML forms (the reference form sets unexported state)
@@ -107,7 +110,9 @@ func (p popCtx) actionSpec() pipeline.ActionSpec {
 	as := pipeline.ActionSpec{}
 	as.Name = "inner"
 	as.Order = 3 + p.r.Intn(4)
-	w := "true"
+	// a guard is copied as it is and evaluated when the action runs — not when it is cloned: guards
+	// that happen to be false (or not evaluable) against the data at clone time are guards like any other
+	w := []string{"true", "false", "{{ eq .x \"later\" }}", "{{ .missing }}"}[p.r.Intn(4)]
 	as.When = &w
 	as.Operations.Log = &pipeline.LogOp{Message: p.str()}
 	if p.depth < 2 && p.r.Intn(2) == 0 {
